@@ -146,7 +146,13 @@ class Built:
             return L.Option(".".join(nd["p"]), **kw)
         if k == "pred":
             name = nd["pred"]
-            return O[nd["arg"]].apply(lambda t, _n=name: Pred(_n, t))
+            log = self.log
+
+            def mkpred(t, _n=name, _i=i):
+                log.append(("pred", _n, (t,), _i))       # building the predicate from its argument is user code too
+                return Pred(_n, t)
+
+            return O[nd["arg"]].apply(mkpred)
         if k == "tmpl":
             return L.Template(tokens_to_str(nd["s"]), **{p["name"]: O[p["n"]] for p in nd["ps"]})
         if k == "apply":
@@ -190,10 +196,18 @@ class Built:
             return L.Switch(O[nd["d"]], lookup)
         if k == "case":
             c = L.case(O[nd["d"]])
+            partials = [c]
             for cs in nd["cases"]:
                 c = c.when(O[cs["c"]], O[cs["n"]])
+                partials.append(c)
             if nd["dflt"]:
                 c = c.otherwise(O[nd["dflt"]])
+                partials.append(c)
+            # every (partially) built case object is extended once more for use "in another context"; the fluent
+            # interface returns new objects, so the ones built above are not affected by it
+            for p_ in partials:
+                p_.when(lambda v: True, L.Value("verif-other-context"))
+                p_.otherwise(L.Value("verif-other-default"))
             return c
         if k == "coalesce":
             return L.Coalesce(*[O[m] for m in nd["ms"]])
